@@ -123,7 +123,9 @@ func init() {
 		"encoding/binary.Read":                    binaryRead,
 		"encoding/binary.Write":                   noEffect,
 		"(*os.File).Write":                        fsFileWrite,
-		"(*os.File).WriteAt":                      fsWrite,
+		"(*os.File).WriteAt":                      fsWriteAt,
+		"(*os.File).ReadAt":                       fsReadAt,
+		glowPath + ".SendUDPReport":               sendUDPReport,
 		"(*os.File).WriteString":                  fsWrite,
 		"os.WriteFile":                            fsWriteFile,
 		"io/ioutil.WriteFile":                     fsWriteFile,
